@@ -125,7 +125,10 @@ def build_api(tx):
     ins = []
     for i in tx["ins"]:
         ti = TxIn(i["prev_tx"], i["prev_index"], Script(toks(i["script"])), i["sequence"])
-        ti.witness = Witness([bytes(x) for x in i["witness"]])
+        if i["witness"]:
+            ti.witness = Witness([bytes(x) for x in i["witness"]])
+        # else: the witness object the constructor made stays (what code that fills witnesses in later,
+        # item by item, starts from)
         ins.append(ti)
     outs = [TxOut(o["amount"], Script(toks(o["script"]))) for o in tx["outs"]]
     return Tx(tx["version"], ins, outs, tx["locktime"], segwit=tx["segwit"])
@@ -332,6 +335,10 @@ def check_objhist(case, ctx):
             compare_fields(back, tx, "objhist/reparse" + tag)
     ctx.nontrivial(requery)
     ctx.label("query_edit_query" if requery else "plain")
+    # nothing of this transaction's history may show up in an unrelated, newly built input
+    fresh = TxIn(bytes(32), 0)
+    require(len(fresh.witness.items) == 0 and not fresh.script_sig.commands,
+            "objhist/new_input_is_not_empty", f"witness={fresh.witness!r} script_sig={fresh.script_sig!r}")
 
 
 # ---------------------------------------------------------------- fetcher
